@@ -3,6 +3,7 @@ package c10
 // Generation of target types, boundary values and input families.
 
 import (
+	"fmt"
 	"math/big"
 	"strings"
 	"time"
@@ -69,7 +70,8 @@ func leafVals(k Kind, thorough bool) []any {
 	case KOID:
 		return []any{[]int{1, 2}, []int{2, 5, 4, 3}, []int{1, 2, 840, 113549}, []int{2, 999, 1}, []int{0, 39}, []int{1, 2, 2147483647}}
 	case KStr:
-		return []any{"", "a", "Test User 1", "a*b", "x@y.z", "é", "12 3", "a&b"}
+		// "Ł", "аб", "中": every rune's low byte is a PrintableString character, none of them is ASCII
+		return []any{"", "a", "Test User 1", "a*b", "x@y.z", "é", "12 3", "a&b", "Ł", "аб", "中-1"}
 	case KBytes:
 		v := []any{[]byte{}, []byte{0}, []byte{1, 2, 3}, rep7(127), rep7(128), rep7(255), rep7(256)}
 		if thorough {
@@ -223,6 +225,13 @@ func genTypes(thorough bool) []*typ {
 			}
 			add("struct, 2 fields", st(Field{"A", "", leaf(KInt)}, Field{"B", tag, l.s}), "", false)
 		}
+	}
+	// 3b. strings under an implicit context tag whose number is that of a universal string or time type:
+	// the tag says nothing about the string type
+	for _, n := range []int{4, 12, 18, 19, 20, 22, 23, 24, 27, 30} {
+		tag := fmt.Sprintf("tag:%d", n)
+		add("string under a tag numbered like a universal type", leaf(KStr), tag, n == 12 || n == 22)
+		add("string under a tag numbered like a universal type", st(Field{"A", tag, leaf(KStr)}, Field{"B", "optional", leaf(KInt)}), "", false)
 	}
 	// 4. SEQUENCE OF / SET OF of every leaf
 	for _, l := range lv {
